@@ -34,6 +34,17 @@ ASSUMPTIONS = [
     "every generated adapter's wasSuccessful() is the conjunction of what it wraps (documented for MultiTestResult; the others delegate)",
     "details may be passed positionally (addSuccess(test, d), addError(test, None, d)): the signatures of TestResult allow it",
     "a synthesised exc_info may be any 3-sequence (a list is not reported)",
+    "a new startTestRun puts every TestResult's clock back on the system clock, also after an explicit time(t): "
+    "TestResult.startTestRun 'resets the result to a pristine condition ready for use in another test run' (so a "
+    "TestByTestResult start/stop time equal to a time() value of an earlier run is reported as stale)",
+    "the test object a target / callback receives may be a stand-in for the reporter's (same id()); it must not be the "
+    "object of another test of the history",
+    "a skip reason given as such reaches the TestByTestResult callback as the bytes of some detail ('reason' by "
+    "convention; the key is not asserted)",
+    "startTestRun / stopTestRun are counted at extended targets on the strength of 'nothing is dropped or duplicated': "
+    "an adapter does not open or close a run on its own",
+    "the recorder standing in for a real testtools.TestResult binds outcome arguments by TestResult's own signatures "
+    "(details third / second positional argument or by keyword)",
 ]
 
 FLAVOURS = ["py26", "py27", "ext", "twisted", "real"]
@@ -118,10 +129,16 @@ def build(n, path, targets, tbts):
             for m in OUTCOMES:
                 def mk(m):
                     def f_(self, test, *a, **kw):
+                        # bind the way TestResult's own signatures do: addSuccess / addUnexpectedSuccess(test,
+                        # details=None), the others (test, err-or-reason=None, details=None) - details may arrive
+                        # positionally as well as by keyword
+                        takes_err = m not in ("addSuccess", "addUnexpectedSuccess")
                         det = kw.get("details")
+                        if det is None and len(a) > (1 if takes_err else 0):
+                            det = a[1 if takes_err else 0]
                         from vp.results import snap_details
                         ctx = {"details": snap_details(det)} if det is not None else {}
-                        if a and a[0] is not None:
+                        if takes_err and a and a[0] is not None:
                             ctx["err" if m != "addSkip" else "reason"] = a[0]
                         if kw.get("err") is not None:
                             ctx["err"] = kw["err"]
@@ -270,6 +287,7 @@ def run_case(spec):
     tbt_seen = [[] for _ in tbts]                  # per test: (tags at outcome, tags at stopTest)
 
     made = {}
+    started = []       # every test object handed to startTest
     shared_details = {} if spec.get("share_details") else None     # one dict object per distinct set of attachments
     if spec.get("share_details") == "refill":
         shared_details = {"<refill>": {}}                          # ... or one dict for the whole history, refilled
@@ -313,6 +331,7 @@ def run_case(spec):
                         if isinstance(step, tuple):
                             m.change(step[1], step[2])
                 reported.append({"test": cur, "start": now})
+                started.append(cur)
             elif k == "outcome":
                 e = reported[-1]
                 e["kind"] = op["kind"]
@@ -365,6 +384,12 @@ def run_case(spec):
             return Case(vs, True, ["raised"])
     reported = [e for e in reported if "kind" in e and "stop" in e]
 
+    def somebody_elses(obj, e_):
+        """Is ``obj`` (received where e_'s test was reported) the object of *another* reported test?  The statement
+        speaks of calls, not of object identity: an adapter may hand on a stand-in (a proxy, a copy) with the same id();
+        what it may not do is hand on a different test of this history."""
+        return obj is not e_["test"] and any(obj is x for x in started)
+
     def foreign(data, here):
         """Do these bytes repeat something the reporter supplied (a detail of any call, the exception text of another
         call)?  Empty contents are nobody's."""
@@ -399,8 +424,8 @@ def run_case(spec):
             vs.append(V("delivery", "%s-%s" % (b, flavour), "target %s behind %r received %r, expected %r" % (flavour, path, got_names, want_names)))
             continue
         for ev, (wname, e) in zip(evs, want):
-            if ev[1] is not e["test"]:
-                vs.append(V("delivery", "test-identity", "target received a different test object"))
+            if somebody_elses(ev[1], e):
+                vs.append(V("delivery", "test-identity", "target received another test's object"))
             if ev[0] not in OUTCOMES:
                 continue
             ctx = ev[2]
@@ -527,7 +552,11 @@ def run_case(spec):
             vs.append(V("test-by-test", "callback-count", "%d callbacks for %d tests (path %r)" % (len(calls), len(reported), path)))
             continue
         for c, e in zip(calls, reported):
-            if c["test"] is not e["test"]:
+            try:
+                same_id = c["test"] is e["test"] or c["test"].id() == e["test"].id()
+            except Exception:
+                same_id = False
+            if not same_id or somebody_elses(c["test"], e):
                 vs.append(V("test-by-test", "test", "callback for the wrong test"))
             want_status = {"success": "success", "error": "error", "failure": "failure", "skip": "skip", "xfail": "xfail"}.get(e["kind"])
             if want_status is None:
@@ -557,7 +586,10 @@ def run_case(spec):
             det = c["_details_snap"]
             expected_names = set(info["details"] or ()) | ({"traceback"} if info["err"] is not None else set()) | (
                 {"reason"} if e["kind"] == "skip" else set())
+            reason_bytes = info["reason"].encode("utf8") if e["kind"] == "skip" and info["reason"] else None
             for name in sorted(set(det or ()) - expected_names):
+                if reason_bytes is not None and "reason" not in e["made_names"] and det[name] == reason_bytes:
+                    continue    # this call's own reason under a name of the adapter's choosing (see below)
                 # (as at the extended targets: an adapter's own note is tolerated, content of another call is not; a
                 # test reported without details or exc_info must not carry the previous test's)
                 if foreign(det[name], e):
@@ -575,7 +607,8 @@ def run_case(spec):
                 if det is None or not any(e["marker"].encode() in v for v in det.values()):
                     vs.append(V("test-by-test", "traceback", "no traceback detail with marker %s: %r" % (e["marker"], det and sorted(det))))
             if e["kind"] == "skip" and info["reason"]:
-                if det is None or det.get("reason") != info["reason"].encode("utf8"):
+                # a reason given as such becomes a detail; the statement does not name its key ('reason' by convention)
+                if det is None or reason_bytes not in det.values():
                     vs.append(V("test-by-test", "reason", "skip reason %r arrived as %r" % (info["reason"], det and det.get("reason"))))
     d = depth(spec["stack"])
     degr = any(f in ("py26", "py27", "twisted") for _, _, f in targets)
